@@ -4,6 +4,8 @@ import NurbsVerif.Lemmas.LinalgMatrix
 import NurbsVerif.Lemmas.LinalgHelpers
 import NurbsVerif.Lemmas.LinalgCache
 import NurbsVerif.Lemmas.LinalgSDD
+import NurbsVerif.Lemmas.LinalgGuards
+import NurbsVerif.Driver.Linalg
 
 /-!
 # C16  Linear-algebra routines satisfy their defining equations on every call
@@ -14,6 +16,18 @@ Python; `ent A i j` is `A[i][j]`, `toMat r c A` the same entries as a Mathlib `M
 functions (`Model/Linalg.lean`, `Model/LU.lean`) are the ones the correspondence check runs against
 `linalg.lu_solve / lu_factor / matrix_inverse / matrix_determinant / matrix_pivot` and the helpers.
 A Python exception (`ZeroDivisionError`) is `none`; "returns a result" is `= some x`.
+
+**Guards.**  The list-level model functions pad missing entries with `0` and have no shape test, whereas
+`lu_decomposition` raises `ValueError` on a non-square matrix, a ragged matrix / right-hand side raises
+`IndexError`, `matrix_multiply` raises on a size mismatch, and `matrix_pivot` exchanges only the first `n`
+entries of a row.  Every theorem about a list-level routine therefore carries the decidable guard of
+`Model/Linalg.lean` under which the implementation gets past these checks (`isSquare`, `luSolveOk`,
+`luFactorOk`, `matrixInverseOk`, `matrixMultiplyOk`, `matrixVectorOk`, `admissible` for a call of a history);
+nothing is claimed about inputs the code rejects.  The proofs do not use the guards (the padded model
+happens to satisfy the equations anyway); they restrict the CLAIM to the inputs on which model and code
+are compared.  `driver_guard` shows that the guard is literally the test after which the driver answers
+`ERR` in the correspondence check.  The function-level theorems (`doolittle_*`, the substitutions) are about
+`ℕ → ℕ → K` entry functions and need no guard.
 
 The model mirrors the *repaired* code for F-16a (pivoting works on a copy of the memoised identity)
 and F-16c (`lu_factor` solves with `P·b`); the pinned behaviour is refuted on concrete witnesses
@@ -53,9 +67,11 @@ theorem backwardSubstitution_solves (U : ℕ → ℕ → K) (y : ℕ → K) (q :
     x.length = q ∧ ∀ t, t < q → U t t ≠ 0 ∧ ∑ j ∈ Ico t q, U t j * x.getD j 0 = y t :=
   bwdSub_spec U y q x h
 
-/-- **`lu_solve`: whenever a result is returned it satisfies `A·x = b`** (every size, every number
-    of right-hand sides), and a result is returned only if no Doolittle pivot vanishes. -/
-theorem luSolve_correct (A b x : List (List K)) (hb : b.length = A.length) (h : luSolve A b = some x) :
+/-- **`lu_solve` on an admissible input (`A` square, `b` a table of `len(A)` full rows): whenever a result is
+    returned it satisfies `A·x = b`** (every size, every number of right-hand sides), and a result is
+    returned only if no Doolittle pivot vanishes. -/
+theorem luSolve_correct (A b x : List (List K)) (hok : luSolveOk A b = true) (hb : b.length = A.length)
+    (h : luSolve A b = some x) :
     x.length = A.length ∧
     (0 < (b.headD []).length → ∀ j, j < A.length → (doolittle (ent A) A.length).U j j ≠ 0) ∧
     ∀ i, i < A.length → ∀ c, c < (b.headD []).length →
@@ -63,12 +79,14 @@ theorem luSolve_correct (A b x : List (List K)) (hb : b.length = A.length) (h : 
   Lin.luSolve_correct A b x hb h
 
 /-- the same with Mathlib's matrix product -/
-theorem luSolve_correct_matrix (A b x : List (List K)) (hb : b.length = A.length) (h : luSolve A b = some x) :
+theorem luSolve_correct_matrix (A b x : List (List K)) (hok : luSolveOk A b = true) (hb : b.length = A.length)
+    (h : luSolve A b = some x) :
     toMat A.length A.length A * toMat A.length (b.headD []).length x = toMat A.length (b.headD []).length b :=
   toMat_mul_of_sums A x b _ _ (Lin.luSolve_correct A b x hb h).2.2
 
-/-- `lu_solve` does return a result when no Doolittle pivot vanishes. -/
-theorem luSolve_returns (A b : List (List K)) (hb : b.length = A.length)
+/-- `lu_solve` does return a result when the input is admissible (`A` square, `b` with `len(A)` full rows) and
+    no Doolittle pivot vanishes. -/
+theorem luSolve_returns (A b : List (List K)) (hok : luSolveOk A b = true) (hb : b.length = A.length)
     (hpiv : ∀ j, j < A.length → (doolittle (ent A) A.length).U j j ≠ 0) : ∃ x, luSolve A b = some x :=
   luSolve_isSome A b hb hpiv
 end field
@@ -76,18 +94,19 @@ end field
 section ordered
 variable {K : Type} [Field K] [LinearOrder K]
 
-/-- **The plain LU solver always returns a result for strictly (row) diagonally dominant matrices**,
-    and the result solves the system. -/
-theorem luSolve_sdd [IsStrictOrderedRing K] (A b : List (List K)) (hb : b.length = A.length)
+/-- **The plain LU solver always returns a result for strictly (row) diagonally dominant SQUARE matrices**
+    (and a right-hand side of `len(A)` full rows), and the result solves the system. -/
+theorem luSolve_sdd [IsStrictOrderedRing K] (A b : List (List K)) (hok : luSolveOk A b = true)
+    (hb : b.length = A.length)
     (hsdd : SDD (ent A) A.length) :
     ∃ x, luSolve A b = some x ∧
       toMat A.length A.length A * toMat A.length (b.headD []).length x = toMat A.length (b.headD []).length b := by
   obtain ⟨x, hx⟩ := luSolve_isSome A b hb (sdd_pivots_ne_zero (ent A) A.length hsdd)
   exact ⟨x, hx, toMat_mul_of_sums A x b _ _ (Lin.luSolve_correct A b x hb hx).2.2⟩
 
-/-- **`matrix_pivot` returns a genuine permutation**: one permutation `σ` of `0..n-1` such that the
+/-- **`matrix_pivot` (square input) returns a genuine permutation**: one permutation `σ` of `0..n-1` such that the
     returned matrix is the input with rows `σ 0, σ 1, …` and `P` is the identity with the same rows. -/
-theorem matrixPivot_permutation (m : List (List K)) :
+theorem matrixPivot_permutation (m : List (List K)) (hsq : isSquare m = true) :
     ∃ σ : List ℕ, σ.Perm (List.range m.length) ∧
       (matrixPivot m).mp = σ.map (fun i => m.getD i []) ∧
       (matrixPivot m).p = σ.map (fun i => (identity m.length : List (List K)).getD i []) :=
@@ -95,14 +114,14 @@ theorem matrixPivot_permutation (m : List (List K)) :
 
 /-- the returned rows are a permutation of the input rows, `P`'s rows the same permutation of the
     identity rows (`List.Perm` of the zipped pairs) -/
-theorem matrixPivot_rows_perm (m : List (List K)) :
+theorem matrixPivot_rows_perm (m : List (List K)) (hsq : isSquare m = true) :
     (matrixPivot m).mp.Perm m ∧
     ((matrixPivot m).mp.zip (matrixPivot m).p).Perm (m.zip (identity m.length)) :=
   ⟨Lin.matrixPivot_rows_perm m, matrixPivot_zip_perm m⟩
 
 /-- in Mathlib terms: `P` is the permutation matrix of some `τ`, the returned matrix is the input
     with rows permuted by `τ`, and it equals the product `P·A`. -/
-theorem matrixPivot_permutation_matrix (m : List (List K)) :
+theorem matrixPivot_permutation_matrix (m : List (List K)) (hsq : isSquare m = true) :
     (∃ τ : Equiv.Perm (Fin m.length),
       toMat m.length m.length (matrixPivot m).p = (1 : Matrix (Fin m.length) (Fin m.length) K).submatrix τ id ∧
       toMat m.length m.length (matrixPivot m).mp = (toMat m.length m.length m).submatrix τ id) ∧
@@ -110,34 +129,35 @@ theorem matrixPivot_permutation_matrix (m : List (List K)) :
       = toMat m.length m.length (matrixPivot m).p * toMat m.length m.length m :=
   ⟨matrixPivot_equiv m, matrixPivot_toMat_mul m⟩
 
-/-- **`lu_factor` (right-hand side permuted with `P`, i.e. F-16c repaired): whenever a result is
-    returned it satisfies `A·x = b`.** -/
-theorem luFactor_correct (A b x : List (List K)) (hb : b.length = A.length) (h : luFactor A b = some x) :
+/-- **`lu_factor` (right-hand side permuted with `P`, i.e. F-16c repaired) on an admissible input (`A` square,
+    `b` rectangular with `len(A)` rows): whenever a result is returned it satisfies `A·x = b`.** -/
+theorem luFactor_correct (A b x : List (List K)) (hok : luFactorOk A b = true) (h : luFactor A b = some x) :
     x.length = A.length ∧
     toMat A.length A.length A * toMat A.length (b.headD []).length x = toMat A.length (b.headD []).length b :=
+  have hb : b.length = A.length := luFactorOk_length A b hok
   ⟨(Lin.luFactor_correct A b x hb h).1, toMat_mul_of_sums A x b _ _ (Lin.luFactor_correct A b x hb h).2⟩
 
-/-- **`matrix_inverse`: whenever a result is returned, `A·A⁻¹ = 1` and `A⁻¹·A = 1`** (in
-    particular the input was non-singular). -/
-theorem matrixInverse_correct (m X : List (List K)) (h : matrixInverse m = some X) :
+/-- **`matrix_inverse` of a (non-empty) square matrix: whenever a result is returned, `A·A⁻¹ = 1` and
+    `A⁻¹·A = 1`** (in particular the input was non-singular). -/
+theorem matrixInverse_correct (m X : List (List K)) (hok : matrixInverseOk m = true) (h : matrixInverse m = some X) :
     X.length = m.length ∧
     toMat m.length m.length m * toMat m.length m.length X = 1 ∧
     toMat m.length m.length X * toMat m.length m.length m = 1 :=
   ⟨(Lin.matrixInverse_correct m X h).1, matrixInverse_matrix m X h⟩
 
-/-- **`matrix_determinant` equals the (Leibniz) determinant `Matrix.det`** - PARTIAL: under the
+/-- **`matrix_determinant` of a square matrix equals the (Leibniz) determinant `Matrix.det`** - PARTIAL: under the
     hypothesis that Doolittle on the row-permuted matrix meets no zero pivot.  The hypothesis cannot
     be dropped for the code as it is: without it the routine still returns a number (`0`), which is
     wrong for the non-singular F-16b witness below.  Missing for the full property: real partial
     pivoting in the code (then the hypothesis follows from non-singularity). -/
-theorem matrixDeterminant_eq_det_partial (m : List (List K))
+theorem matrixDeterminant_eq_det_partial (m : List (List K)) (hsq : isSquare m = true)
     (hpiv : ∀ j, j < m.length → (doolittle (ent (matrixPivot m).mp) m.length).U j j ≠ 0) :
     matrixDeterminant m = (toMat m.length m.length m).det :=
   matrixDeterminant_eq_det m hpiv
 
 /-- the sign returned by `matrix_pivot(m, sign=True)` is the determinant factor of the row
     exchanges: `det (P·A) = sign · det A` -/
-theorem matrixPivot_sign (m : List (List K)) :
+theorem matrixPivot_sign (m : List (List K)) (hsq : isSquare m = true) :
     (toMat m.length m.length (matrixPivot m).mp).det
       = pivotSign (matrixPivot m) * (toMat m.length m.length m).det := by
   rw [matrixPivot_det, pivotSign, ← Lin.neg_one_pow_eq_ite]
@@ -148,22 +168,26 @@ section history
 variable {K : Type} [Add K] [Sub K] [Mul K] [Div K] [Neg K] [Zero K] [One K] [NatCast K]
   [LT K] [LE K] [DecidableRel (α := K) (· < ·)] [DecidableRel (α := K) (· ≤ ·)] [DecidableEq K]
 
-/-- **The answers do not depend on which routines were called before**: in every history of calls
-    (`matrix_identity`, `matrix_pivot`, `matrix_inverse`, `matrix_determinant`, `lu_solve`, `lu_factor`),
-    started from any cache whose entries are identity matrices (in particular the empty one), every
-    call returns what it returns as a function of its arguments alone. -/
-theorem history_independent (c : Cache K) (ops : List (Op K)) (h : CacheOk c) :
+/-- **The answers do not depend on which routines were called before**: in every history of admissible calls
+    (`matrix_identity`, `matrix_pivot`, `matrix_inverse`, `matrix_determinant`, `lu_solve`, `lu_factor`; each
+    with an input the routine does not reject, `admissible`), started from any cache whose entries are identity
+    matrices (in particular the empty one), every call returns what it returns as a function of its arguments
+    alone.  (A rejected call in between can only call `matrix_identity`, which keeps the cache invariant,
+    so the theorem applies again to the rest of the history: the start cache is arbitrary.) -/
+theorem history_independent (c : Cache K) (ops : List (Op K)) (hadm : ∀ op ∈ ops, admissible op = true)
+    (h : CacheOk c) :
     runWith stepC c ops = ops.map pureOut :=
   runWith_stepC c ops h
 
 /-- … in particular the answer of a call is the same after any two histories. -/
 theorem last_call_independent (c c' : Cache K) (pre pre' : List (Op K)) (op : Op K)
-    (h : CacheOk c) (h' : CacheOk c') :
+    (hadm : ∀ o ∈ pre ++ pre' ++ [op], admissible o = true) (h : CacheOk c) (h' : CacheOk c') :
     (runWith stepC c (pre ++ [op])).getLast? = (runWith stepC c' (pre' ++ [op])).getLast? :=
   runWith_stepC_last_indep c c' pre pre' op h h'
 
 /-- the cache invariant behind it: entry `n` of the memoised `matrix_identity` always is `1ₙ` -/
-theorem cache_invariant (c : Cache K) (op : Op K) (h : CacheOk c) : CacheOk (stepC c op).1 :=
+theorem cache_invariant (c : Cache K) (op : Op K) (hadm : admissible op = true) (h : CacheOk c) :
+    CacheOk (stepC c op).1 :=
   (stepC_ok c op h).2
 end history
 
@@ -171,8 +195,9 @@ end history
 section helpers
 variable {K : Type} [Field K]
 
-/-- `vector_dot` is `∑ vᵢ wᵢ` -/
-theorem vectorDot_eq (v w : List K) :
+/-- `vector_dot` of two non-empty vectors (an empty one is a `ValueError`) is `∑ vᵢ wᵢ` over the common
+    indices (`zip`) -/
+theorem vectorDot_eq (v w : List K) (hv : v ≠ []) (hw : w ≠ []) :
     vectorDot v w = ∑ i ∈ range (min v.length w.length), v.getD i 0 * w.getD i 0 :=
   Lin.vectorDot_eq v w
 
@@ -210,8 +235,10 @@ theorem matrixTranspose_spec (m : List (List K)) (c : ℕ) (hc : 0 < c) (hm : m 
     matrixTranspose (matrixTranspose m) = m :=
   ⟨fun i j hi hj => matrixTranspose_ent m i j hi hj, matrixTranspose_involutive m c hc hm hrect⟩
 
-/-- `matrix_multiply` is the matrix product (entrywise sums, and as Mathlib `Matrix` product). -/
-theorem matrixMultiply_eq (a b : List (List K)) :
+/-- `matrix_multiply` on an admissible input (`len(mat1[0]) = len(mat2)`, otherwise "Column - row size
+    mismatch"; every entry the loops read exists) is the matrix product (entrywise sums, and as Mathlib
+    `Matrix` product). -/
+theorem matrixMultiply_eq (a b : List (List K)) (hok : matrixMultiplyOk a b = true) :
     (∀ i j, i < a.length → j < (b.headD []).length →
       ent (matrixMultiply a b) i j = ∑ k ∈ range b.length, ent a i k * ent b k j) ∧
     toMat a.length (b.headD []).length (matrixMultiply a b)
@@ -221,8 +248,9 @@ theorem matrixMultiply_eq (a b : List (List K)) :
   simp only [toMat, Matrix.mul_apply]
   rw [matrixMultiply_ent a b i j i.2 j.2, Finset.sum_range]
 
-/-- matrix–vector branch of `matrix_multiply` -/
-theorem matrixVector_eq (a : List (List K)) (v : List K) (i : ℕ) (hi : i < a.length) :
+/-- matrix–vector branch of `matrix_multiply` (same size test) -/
+theorem matrixVector_eq (a : List (List K)) (v : List K) (hok : matrixVectorOk a v = true) (i : ℕ)
+    (hi : i < a.length) :
     (matrixVector a v).getD i 0 = ∑ k ∈ range v.length, ent a i k * v.getD k 0 :=
   matrixVector_ent a v i hi
 
@@ -247,10 +275,38 @@ theorem linspace_spec [CharZero K] (a b : K) (n : ℕ) (hn : 2 ≤ n) :
    linspaceCore_first a b n (by omega), linspaceCore_last a b n hn⟩
 end helpers
 
+/-! ### the guards are the tests of the correspondence check -/
+
+/-- **The guard of the theorems is what the driver checks**: the driver (`Driver/Linalg.lean`, ops `la.op`,
+    `la.hist`) answers `ERR` - and the harness expects the implementation to raise - exactly when `admissible`
+    fails.  (`Drv.opOk` is written out independently in the driver; the two definitions agree on every call.) -/
+theorem driver_guard (op : Op Rat) : Drv.opOk op = admissible op := by
+  cases op <;> rfl
+
+/-- unfolding lemma: what the guards say in plain terms - `A` has `len(A)` rows of `len(A)` entries, `b` is
+    non-empty, has at most `len(A)` rows, each at least as long as the first -/
+theorem luSolveOk_iff {K : Type} (A b : List (List K)) :
+    luSolveOk A b = true ↔
+      (∀ r ∈ A, r.length = A.length) ∧ 0 < b.length ∧ b.length ≤ A.length ∧ ∀ r ∈ b, (b.headD []).length ≤ r.length :=
+  Lin.luSolveOk_iff A b
+
+/-- witness: the audit's counterexamples are rejected by the guard (a 2×3 "matrix", a ragged matrix, a ragged
+    right-hand side), while the model functions would return a padded answer on them; the driver's test fails
+    (it then answers `ERR`) -/
+theorem guard_rejects_nonsquare :
+    luSolveOk ([[1,0,5],[0,1,7]] : List (List Rat)) [[1],[2]] = false ∧
+    luSolve ([[1,0,5],[0,1,7]] : List (List Rat)) [[1],[2]] = some [[1],[2]] ∧
+    luSolveOk ([[2,1],[3]] : List (List Rat)) [[1],[2]] = false ∧
+    luSolveOk ([[1,0],[0,1]] : List (List Rat)) [[1,9],[2]] = false ∧
+    matrixInverseOk ([[1,0,5],[0,1,7]] : List (List Rat)) = false ∧
+    Drv.opOk (.luSolve ([[1,0,5],[0,1,7]] : List (List Rat)) [[1],[2]]) = false := by
+  decide +kernel
+
 /-! ### the pinned tree violates the property (replayed on the implementation by the harness) -/
 
 /-- F-16a: on the pinned tree the call `matrix_pivot([[0,1],[1,0]])` leaves the memoised
-    "identity" of size 2 as the exchange matrix … -/
+    "identity" of size 2 as the exchange matrix …
+    (Closed witness check: a statement about this one concrete input, decided by evaluation.) -/
 theorem pinned_refutes_history_independence :
     (runWith stepPinned ([] : Cache Rat) [.pivot [[0,1],[1,0]], .identity 2]).getD 1 none = some [[[0,1],[1,0]]] ∧
     runWith stepPinned ([] : Cache Rat) [.pivot [[0,1],[1,0]], .identity 2]
@@ -258,7 +314,8 @@ theorem pinned_refutes_history_independence :
   ⟨pinned_identity_second, pinned_identity_mutated⟩
 
 /-- … so that `matrix_inverse(diag(2,4))` afterwards returns an anti-diagonal matrix instead of
-    `diag(1/2,1/4)` (which the repaired model returns in the same history). -/
+    `diag(1/2,1/4)` (which the repaired model returns in the same history).
+    (Closed witness check: a statement about this one concrete input, decided by evaluation.) -/
 theorem pinned_refutes_inverse :
     (runWith stepPinned ([] : Cache Rat) [.pivot [[0,1],[1,0]], .inverse [[2,0],[0,4]]]).getD 1 none
       = some [[[0, 1/2],[1/4, 0]]] ∧
@@ -269,7 +326,8 @@ theorem pinned_refutes_inverse :
 
 /-- F-16c: the pinned `lu_factor` (right-hand side not permuted) returns `x` with `A·x ≠ b`:
     `[[0,1],[1,0]]·x = [1,2]` has the solution `[2,1]`, the pinned code returns `[1,2]`; likewise for
-    `[[1,2],[3,4]]`, `b = [5,6]`. -/
+    `[[1,2],[3,4]]`, `b = [5,6]`.
+    (Closed witness check: a statement about this one concrete input, decided by evaluation.) -/
 theorem pinned_refutes_luFactor :
     luFactorPinned ([[0,1],[1,0]] : List (List Rat)) [[1],[2]] = some [[1],[2]] ∧
     luFactor ([[0,1],[1,0]] : List (List Rat)) [[1],[2]] = some [[2],[1]] ∧
@@ -278,7 +336,8 @@ theorem pinned_refutes_luFactor :
   ⟨luFactorPinned_wrong, luFactor_witness, luFactorPinned_wrong2, luFactor_witness2⟩
 
 /-- F-16b (recorded, open): `matrix_determinant([[1,1,0],[1,1,1],[0,1,1]])` is `0`, the determinant
-    is `-1` (Laplace expansion and `Matrix.det`). -/
+    is `-1` (Laplace expansion and `Matrix.det`).
+    (Closed witness check: a statement about this one concrete input, decided by evaluation.) -/
 theorem determinant_refutes_F16b :
     matrixDeterminant ([[1,1,0],[1,1,1],[0,1,1]] : List (List Rat)) = 0 ∧
     detLaplace 3 ([[1,1,0],[1,1,1],[0,1,1]] : List (List Rat)) = -1 ∧
@@ -289,6 +348,17 @@ theorem determinant_refutes_F16b :
 
 /-! ### non-vacuity: the hypotheses are met by concrete non-trivial inputs -/
 
+/-- the guards hold on the inputs used below -/
+example : luSolveOk ([[2,1],[1,3]] : List (List Rat)) [[3],[5]] = true ∧
+    luFactorOk ([[0,2],[3,4]] : List (List Rat)) [[2],[7]] = true ∧
+    matrixInverseOk ([[0,1],[1,0]] : List (List Rat)) = true ∧
+    isSquare ([[0,2],[3,4]] : List (List Rat)) = true ∧
+    matrixMultiplyOk ([[1,2,3],[4,5,6]] : List (List Rat)) [[1,0],[0,1],[2,2]] = true ∧
+    matrixVectorOk ([[1,2,3],[4,5,6]] : List (List Rat)) [1,0,2] = true ∧
+    admissible (.luFactor [[0,2],[3,4]] [[2],[7]] : Op Rat) = true := by decide +kernel
+/-- the guarded theorems apply: `lu_solve` on a strictly diagonally dominant 2×2 matrix -/
+example : ∃ x, luSolve ([[2,1],[1,3]] : List (List Rat)) [[3],[5]] = some x :=
+  luSolve_returns _ _ (by decide +kernel) rfl (by decide +kernel)
 /-- `lu_solve` returns on a 2×2 system with rational solution -/
 example : luSolve ([[2,1],[1,3]] : List (List Rat)) [[3],[5]] = some [[4/5],[7/5]] := by decide +kernel
 /-- `lu_factor` / `matrix_inverse` return on a matrix that needs a row exchange -/
